@@ -7,7 +7,7 @@ pub mod take;
 
 use super::{DeError, Error};
 
-use integer_encoding::{VarInt, VarIntReader};
+use integer_encoding::VarInt;
 
 /// Abstracts reading from slices or any other `impl BufRead` behind the same
 /// interface
@@ -180,7 +180,32 @@ impl<R: std::io::BufRead> Read for ReaderRead<R> {
 		// more general `read_varint` method that reads byte by byte (that's slightly
 		// sub-optimal but also will trigger extremely rarely).
 		match I::decode_var(self.fill_buf().map_err(DeError::io)?) {
-			None => <Self as VarIntReader>::read_varint(self).map_err(DeError::io),
+			None => {
+				// Gather the bytes of the varint one by one, up to what the slice decoder
+				// would look at (stop at the first byte that has no continuation bit, or
+				// at the 10th byte), then decode them exactly like the fast path and
+				// the slice reader do, so that all paths accept the same inputs.
+				let mut buf = [0u8; 10];
+				let mut n = 0;
+				while n < buf.len() {
+					let mut byte = [0u8; 1];
+					if std::io::Read::read(self, &mut byte).map_err(DeError::io)? == 0 {
+						break;
+					}
+					buf[n] = byte[0];
+					n += 1;
+					if byte[0] & 0x80 == 0 {
+						break;
+					}
+				}
+				match I::decode_var(&buf[..n]) {
+					Some((val, _)) => Ok(val),
+					None => Err(DeError::new(
+						"Could not decode varint: reached EOF before its end, \
+							or it does not fit the expected integer type",
+					)),
+				}
+			}
 			Some((val, read)) => {
 				self.consume(read);
 				Ok(val)
